@@ -336,7 +336,7 @@ func init() {
 			MinEvents:   10000,
 			Gen: func(ctx *fw.Ctx) []fw.Case {
 				var cs []fw.Case
-				n := 60
+				n := 400
 				if !ctx.Quick {
 					n = 2500
 				}
